@@ -8,3 +8,24 @@ pub fn stub_format(_a: core::fmt::Arguments<'_>) -> String { String::new() }
 // C11: AbstractCulture::index_of with a SYMBOLIC table size is a Verus obligation (verus/c11_index_of.rs); the Kani form
 // (64/128-bit division by a symbolic size) did not finish in 10 min. Per concrete table size it is part of every
 // generated cycle harness (c11_cycle_*).
+
+// C15: LoopTyme::steps_to on the real body, for the two table sizes it is used with (10 stems, 12 branches): the number of
+// forward steps from the current index to the target index, (target - index) mod size.
+fn empties(n: usize) -> Vec<String> { let mut v: Vec<String> = Vec::with_capacity(n); let mut i = 0; while i < n { v.push(String::new()); i += 1; } v }
+macro_rules! steps_to_harness { ($name:ident, $n:expr) => {
+  #[kani::proof]
+  #[kani::unwind(13)]
+  #[kani::stub(alloc::fmt::format, stub_format)]
+  fn $name() {
+    let n: usize = $n;
+    let i: isize = kani::any(); let t: isize = kani::any();
+    kani::assume(i >= 0 && (i as usize) < n && t > -(1isize << 31) && t < (1isize << 31));
+    let l = LoopTyme::from_index(empties(n), i);
+    assert!(l.get_index() == i as usize && l.get_size() == n, "index and size as constructed");
+    let r = l.steps_to(t);
+    assert!(r as i64 == spec::emod(t as i64 - i as i64, n as i64) && r < n, "steps_to == (target - index) mod size");
+    kani::cover!(t == 7 && i == 8, "steps_to reachable");
+  }
+} }
+steps_to_harness!(c15_k_steps_to_10, 10);
+steps_to_harness!(c15_k_steps_to_12, 12);
